@@ -132,6 +132,10 @@ func runC20(r *Report, tier string) {
 			switch {
 			case e.Op == "nil":
 				o.ok("error operand is nil", false)
+			case x.kind == exitSuccess && !x.delegated:
+				o.ok("error operand is nil on this exit by the dominating test", true)
+			case b.Op == "zero":
+				o.ok("byte operand is the unassigned (nil) result", false)
 			case b.Op == "nil":
 				o.ok("byte operand is nil", false)
 			case pairDelegated(b, e):
